@@ -181,6 +181,140 @@ Proof.
   rewrite <- concat_app, firstn_skipn. apply concat_chunk. nl.
 Qed.
 
+(* ------------------------------------------------------------------ fix / deshape, couple / join, select / pick / first *)
+
+(** deshape ignores the axis that fix adds *)
+Theorem deshape_fix : forall a, p_deshape (p_fix a) = p_deshape a.
+Proof. intros [t s d]; unfold p_deshape, p_fix; cbn [aty ash adata]. f_equal. f_equal. unfold prodn; cbn [fold_right]. lia. Qed.
+
+(** couple = join of the two arrays each given a length-1 axis (defs.rs:1379-1387: the arrays become
+    the two rows; "For scalars, it is equivalent to join") *)
+Theorem couple_join_fix : forall a b, aty a = aty b -> ash a = ash b ->
+  p_couple None a b = p_join None (p_fix a) (p_fix b).
+Proof.
+  intros [t s d] [t' s' d'] Ht Hs; cbn [aty ash adata] in *; subst t' s'.
+  unfold p_fix; cbn [aty ash adata]. rewrite join_same_rank by lia.
+  unfold p_couple, box_mix, box_fill; cbn [aty ash adata]. rewrite ety_eqb_refl, list_eqb_refl_nat. reflexivity.
+Qed.
+
+(** selecting row 0 is first (defs.rs:1025 "Get the first row", :1455 "Select multiple rows") *)
+Theorem select_zero_first : forall a n s, ash a = S n :: s ->
+  p_select None [] [AInt 0] a = p_first None a.
+Proof.
+  intros [t sh d] n s Hs; cbn [aty ash adata] in *; subst sh.
+  unfold p_select, p_first; cbn [aty ash adata box_fill fill_for mapM sel_row chunk].
+  cbn [Z.leb Z.compare Z.to_nat nth_error bind concat app]. rewrite app_nil_r. reflexivity.
+Qed.
+
+(** "For a scalar selector, select is equivalent to pick" (defs.rs:1457) *)
+Theorem pick_scalar_select : forall a n s z, ash a = n :: s ->
+  p_pick None [] [AInt z] a = p_select None [] [AInt z] a.
+Proof.
+  intros [t sh d] n s z Hs; cbn [aty ash adata] in *; subst sh.
+  unfold p_pick, p_select; cbn [aty ash adata box_fill fill_for removelast length Nat.ltb Nat.leb prodn fold_right chunk firstn skipn mapM pick_one].
+  destruct (sel_row None (prodn s) (chunk (prodn s) n d) (AInt z)); reflexivity.
+Qed.
+
+(* ------------------------------------------------------------------ rotate: composition and inverse *)
+
+Lemma rotl_app_len {X} (A B : list X) : rotl (length A) (A ++ B) = B ++ A.
+Proof.
+  unfold rotl. rewrite skipn_app, firstn_app, Nat.sub_diag, skipn_all, firstn_all. cbn. rewrite app_nil_r. reflexivity.
+Qed.
+
+Lemma rotl_rotl_app {X} (A B : list X) i : (i < length A + length B)%nat ->
+  rotl i (B ++ A) =
+  rotl (if (i + length A <? length A + length B)%nat then i + length A else i + length A - (length A + length B))%nat (A ++ B).
+Proof.
+  intros Hi. unfold rotl.
+  destruct (Nat.ltb_spec (i + length A) (length A + length B)) as [H|H].
+  - (* i < |B| *)
+    rewrite (skipn_app i B A), (firstn_app i B A).
+    replace (i - length B)%nat with 0%nat by lia. cbn [skipn firstn]. rewrite app_nil_r.
+    rewrite (skipn_app (i + length A) A B), (firstn_app (i + length A) A B).
+    rewrite (@skipn_all2 _ (i + length A)%nat A) by lia. rewrite (@firstn_all2 _ (i + length A)%nat A) by lia.
+    replace (i + length A - length A)%nat with i by lia. cbn [app]. rewrite <- app_assoc. reflexivity.
+  - (* i >= |B| *)
+    rewrite (skipn_app i B A), (firstn_app i B A).
+    rewrite (@skipn_all2 _ i B) by lia. rewrite (@firstn_all2 _ i B) by lia. cbn [app].
+    set (i' := (i + length A - (length A + length B))%nat).
+    replace (i - length B)%nat with i' by (unfold i'; lia).
+    rewrite (skipn_app i' A B), (firstn_app i' A B).
+    replace (i' - length A)%nat with 0%nat by (unfold i'; lia). cbn [skipn firstn]. rewrite app_nil_r.
+    rewrite <- app_assoc. reflexivity.
+Qed.
+
+Lemma rotl_rotl {X} (l : list X) i j : (i < length l)%nat -> (j < length l)%nat ->
+  rotl i (rotl j l) = rotl (if (i + j <? length l)%nat then i + j else i + j - length l)%nat l.
+Proof.
+  intros Hi Hj.
+  assert (LA : length (firstn j l) = j) by (rewrite firstn_length; lia).
+  assert (LB : length (skipn j l) = (length l - j)%nat) by apply skipn_length.
+  change (rotl j l) with (skipn j l ++ firstn j l).
+  rewrite (rotl_rotl_app (firstn j l) (skipn j l) i) by (rewrite LA, LB; lia).
+  rewrite firstn_skipn, LA, LB. replace (j + (length l - j))%nat with (length l) by lia. reflexivity.
+Qed.
+
+Lemma rotl_length {X} k (l : list X) : length (rotl k l) = length l.
+Proof. unfold rotl. rewrite app_length, skipn_length, firstn_length. lia. Qed.
+Lemma rotl_Forall {X} (P : X -> Prop) k l : Forall P l -> Forall P (rotl k l).
+Proof.
+  intros H. unfold rotl. apply Forall_app; split.
+  - rewrite <- (firstn_skipn k l) in H. apply Forall_app in H. tauto.
+  - rewrite <- (firstn_skipn k l) in H. apply Forall_app in H. tauto.
+Qed.
+
+Lemma zmod_add_nat : forall (i j : Z) (n : nat), (0 < n)%nat ->
+  Z.to_nat ((i + j) mod Z.of_nat n) =
+  let a := Z.to_nat (i mod Z.of_nat n) in let b := Z.to_nat (j mod Z.of_nat n) in
+  (if (a + b <? n)%nat then a + b else a + b - n)%nat.
+Proof.
+  intros i j n Hn. cbv zeta.
+  set (N := Z.of_nat n). assert (HN : (0 < N)%Z) by (unfold N; lia).
+  pose proof (Z.mod_pos_bound i N HN) as Ha. pose proof (Z.mod_pos_bound j N HN) as Hb.
+  rewrite Zplus_mod. set (a := (i mod N)%Z) in *. set (b := (j mod N)%Z) in *.
+  destruct (Nat.ltb_spec (Z.to_nat a + Z.to_nat b) n) as [H|H].
+  - rewrite Z.mod_small by lia. lia.
+  - replace (a + b)%Z with ((a + b - N) + 1 * N)%Z by lia. rewrite Z_mod_plus_full, Z.mod_small by lia. lia.
+Qed.
+
+(** rotating by j and then by i is rotating by i + j (defs.rs:1661-1666); in particular rotating
+    back by the negated amount restores the array *)
+Theorem rotate_add : forall a n s (i j : Z), ash a = n :: s -> wf a ->
+  (r <- p_rotate None [AInt j] a ;; p_rotate None [AInt i] r) = p_rotate None [AInt (i + j)] a.
+Proof.
+  intros [t sh d] n s i j Hs Hw; cbn [aty ash adata] in *; subst sh. unfold wf in Hw; cbn [ash adata] in Hw.
+  unfold p_rotate; cbn [aty ash adata box_fill length Nat.ltb Nat.leb axes_check rot_ok bind fill_for axes_data rot_rows].
+  rewrite !(map_id_ext (fun x => x)) by auto.
+  set (m := prodn s). set (rs := chunk m n d).
+  assert (Lr : length rs = n) by apply chunk_length.
+  assert (Fr : Forall (fun r => length r = m) rs) by (apply chunk_rows_len; nl).
+  rewrite Lr. destruct n as [|n'].
+  - (* no rows *)
+    assert (E : rs = []) by (apply length_zero_iff_nil; exact Lr). rewrite E. reflexivity.
+  - set (n := S n') in *.
+    set (kj := Z.to_nat (j mod Z.of_nat n)). set (ki := Z.to_nat (i mod Z.of_nat n)).
+    assert (Hkj : (kj < n)%nat) by (unfold kj; pose proof (Z.mod_pos_bound j (Z.of_nat n)); lia).
+    assert (Hki : (ki < n)%nat) by (unfold ki; pose proof (Z.mod_pos_bound i (Z.of_nat n)); lia).
+    assert (C : chunk m n (concat (rotl kj rs)) = rotl kj rs).
+    { rewrite <- (rotl_length kj rs) in Lr. rewrite <- Lr at 1. apply chunk_concat, rotl_Forall, Fr. }
+    rewrite C, rotl_length, Lr. unfold n at 1 3. cbv iota. fold n. fold ki.
+    rewrite rotl_rotl by lia. rewrite Lr.
+    unfold ki, kj. rewrite (zmod_add_nat i j n) by lia. reflexivity.
+Qed.
+
+Theorem rotate_inverse : forall a n s (k : Z), ash a = n :: s -> wf a ->
+  (r <- p_rotate None [AInt k] a ;; p_rotate None [AInt (- k)] r) = Ok a.
+Proof.
+  intros a n s k Hs Hw. rewrite (rotate_add a n s (- k) k Hs Hw). replace (- k + k)%Z with 0%Z by lia.
+  destruct a as [t sh d]; cbn [aty ash adata] in *; subst sh. unfold wf in Hw; cbn [ash adata] in Hw.
+  unfold p_rotate; cbn [aty ash adata box_fill length Nat.ltb Nat.leb axes_check rot_ok bind fill_for axes_data rot_rows].
+  rewrite !(map_id_ext (fun x => x)) by auto. rewrite chunk_length.
+  destruct n as [|n'].
+  - f_equal. f_equal. apply concat_chunk. nl.
+  - rewrite Z.mod_0_l by lia. unfold rotl; cbn [Z.to_nat skipn firstn]. rewrite app_nil_r. f_equal. f_equal. apply concat_chunk. nl.
+Qed.
+
 (* ------------------------------------------------------------------ rotate with extra amounts *)
 
 (** more integer amounts than axes: an array without elements is returned unchanged, an array
@@ -260,12 +394,14 @@ Proof. induction sh; intros; cbn [map]; auto. rewrite IHsh. f_equal. lia. Qed.
 
 (** reshaping the deshaped array to the original shape gives the array back
     ("un reshape works equivalently to fork shape deshape", defs.rs:1562) *)
+Lemma zprod_prodn : forall sh, zprod (map Z.of_nat sh) = Z.of_nat (prodn sh).
+Proof. induction sh; cbn [map zprod prodn fold_right]; auto. unfold zprod in IHsh. rewrite IHsh. unfold prodn. lia. Qed.
+
 Theorem reshape_deshape : forall a, wf a -> Forall (fun n => Z.of_nat n <= amt_limit)%Z (ash a) ->
   (zprod (map Z.of_nat (ash a)) * Z.max 1 (Z.of_nat (length (adata a))) <= size_limit)%Z ->
-  (length (ash a) <= 8)%nat ->
   p_reshape None false (map (fun n => AInt (Z.of_nat n)) (ash a)) (p_deshape a) = Ok a.
 Proof.
-  intros [t sh d] Hw Hl Hz Hr; unfold wf in Hw; cbn [aty ash adata] in *. unfold p_reshape; cbn [aty ash adata p_deshape].
+  intros [t sh d] Hw Hl Hz; unfold wf in Hw; cbn [aty ash adata] in *. unfold p_reshape; cbn [aty ash adata p_deshape].
   assert (E1 : existsb (fun m => match m with AFrac | ANaN => true | _ => false end) (map (fun n => AInt (Z.of_nat n)) sh) = false).
   { clear. induction sh; cbn; auto. }
   assert (E2 : existsb (fun m => match m with AInt z => (amt_limit <? Z.abs z)%Z | _ => false end) (map (fun n => AInt (Z.of_nat n)) sh) = false).
@@ -274,18 +410,18 @@ Proof.
   { clear. induction sh; cbn [map]; auto. rewrite IHsh. f_equal. lia. }
   assert (E3 : filter (fun m => match m with AInf _ => true | _ => false end) (map (fun n => AInt (Z.of_nat n)) sh) = []).
   { clear. induction sh; cbn; auto. }
-  assert (E5 : (8 <? zlen (map (fun n => AInt (Z.of_nat n)) sh))%Z = false).
-  { unfold zlen. rewrite map_length. destruct (Z.ltb_spec 8 (Z.of_nat (length sh))); auto; lia. }
-  rewrite E1, E2, E5, E4. unfold zlen.
+  rewrite E1, E2, E4. unfold zlen.
   destruct (Z.ltb_spec size_limit (zprod (map Z.of_nat sh) * Z.max 1 (Z.of_nat (length d)))); [lia|].
   rewrite E3. cbn [length Nat.ltb Nat.leb box_fill fill_for Nat.eqb andb].
-  rewrite !map_dims.
-  assert (S2 : map amt_neg (map (fun n => AInt (Z.of_nat n)) sh) = map (fun _ => false) sh).
-  { clear. induction sh; cbn; auto. rewrite IHsh. f_equal. destruct (Z.ltb_spec (Z.of_nat a) 0); auto; lia. }
-  rewrite S2, <- Hw, cyc_all.
-  destruct (length d =? 0)%nat eqn:E0; cbn; rewrite ?Nat.eqb_refl; cbn.
-  - rewrite rev_axes_false by auto. reflexivity.
-  - rewrite rev_axes_false by auto. reflexivity.
+  rewrite !map_dims. rewrite zprod_prodn, <- Hw.
+  destruct (Z.eqb_spec (Z.of_nat (length d)) 0) as [Z0|Z0].
+  - destruct d; [reflexivity|cbn [length] in Z0; lia].
+  - rewrite Nat2Z.id.
+    assert (S2 : map amt_neg (map (fun n => AInt (Z.of_nat n)) sh) = map (fun _ => false) sh).
+    { clear. induction sh; cbn; auto. rewrite IHsh. f_equal. destruct (Z.ltb_spec (Z.of_nat a) 0); auto; lia. }
+    rewrite S2, cyc_all.
+    destruct (length d =? 0)%nat eqn:E0; cbn [andb negb]; rewrite ?Nat.eqb_refl; cbn [andb negb];
+      rewrite rev_axes_false by auto; reflexivity.
 Qed.
 
 (* ------------------------------------------------------------------ sorting: rise / sort *)
